@@ -334,9 +334,18 @@ impl Progress {
     }
 }
 
+fn json_depth(j: &J) -> usize {
+    match j {
+        J::Array(a) => 1 + a.iter().map(json_depth).max().unwrap_or(0),
+        J::Object(o) => 1 + o.values().map(json_depth).max().unwrap_or(0),
+        _ => 0,
+    }
+}
+
 fn trim_sample(j: J) -> J {
     let s = j.to_string();
-    if s.len() > 6000 {
+    // (JSON readers refuse documents nested deeper than 128 levels: deep samples are kept as text)
+    if s.len() > 6000 || json_depth(&j) > 60 {
         json!({"truncated": true, "text": s.chars().take(6000).collect::<String>()})
     } else {
         j
@@ -691,6 +700,8 @@ pub(crate) fn write_replay(prop: &dyn Property, bytes: &[u8], f: &Failure, tier:
     let path = dir.join(name);
     let decoded = std::panic::catch_unwind(std::panic::AssertUnwindSafe(|| prop.describe(bytes)))
         .unwrap_or(json!("<describe panicked>"));
+    // a replay file must stay readable: very deep decoded forms are kept as text
+    let decoded = if json_depth(&decoded) > 60 { json!({"deep": true, "text": decoded.to_string()}) } else { decoded };
     let j = json!({
         "property": prop.id(),
         "tier": tier.name(),
